@@ -218,6 +218,8 @@ impl Check for C17 {
             case_of(&Family::Numbered { n: 1100 }),
             case_of(&Family::Numbered { n: 2100 }),
             case_of(&Family::Keywords { len: 10 }),
+            // a chain deeper than 4 096 states
+            case_of(&Family::ChainX { n: 4_200 }),
         ];
         if thorough {
             v.push(case_of(&Family::ChainX { n: 66_000 }));
